@@ -120,11 +120,20 @@ def run(ctx):
         idx = rs0.permutation(len(cfgs))[:24]
         cfgs = [cfgs[i] for i in sorted(idx)]
     model_mismatch = False
-    for (D, p, dw) in cfgs:
-        rs = np.random.RandomState(np_seed(ctx.sub_rng('cfg', D, p, str(dw))))
+    # many channels: the library's defaults (n_batch = sum_channels = 8, i.e. 8^4 = 4096 channels after a non-depth-wise product layer)
+    # and beyond them (9^4 = 6561, 10^4), where chunked / streaming code paths would switch on
+    wide = [(4, 1, False, (9, 2)), (4, 0, [False, True], (2, 9)), (2, 1, False, (8, 8))]
+    if not quick:
+        wide += [(4, 2, False, (10, 3)), (6, 1, False, (9, 9)), (4, 1, [False, False], (3, 10)), (3, 0, False, (9, 4))]
+    for cfg in [w for w in wide] + [c + (None,) for c in cfgs]:
+        (D, p, dw, wd) = cfg
+        rs = np.random.RandomState(np_seed(ctx.sub_rng('cfg', D, p, str(dw), str(wd))))
         C = int(rs.randint(1, 4)) if D <= 8 else 1
         classes = int(rs.randint(1, 4))
         nb, sc = int(rs.randint(1, 4)), int(rs.randint(1, 4))         # leaf batch size and sum channels, 1 included
+        if wd is not None:
+            (nb, sc), C = wd, 1
+            ctx.count('many-channel-configurations')
         pseed = int(rs.randint(10 ** 6))
         rep = dict(kind='c17', C=C, D=D, n_pooling=p, depthwise=dw, classes=classes, n_batch=nb, sum_channels=sc, pseed=pseed)
         ctx.case('config', nontrivial_key=json.dumps(rep), sample=rep)
